@@ -19,3 +19,53 @@ if not re.search(r"dst\.put_u32\(", src) or not re.search(r"u32::from_be_bytes\(
     sys.stderr.write("C26 extract: big-endian 4-byte prefix calls not found\n")
     sys.exit(1)
 print("def prefixLen : Nat := 4")
+
+# ---- Codec::decode, regenerated from the current source text by rs2lean -------------------------
+# The translator's expression subset has no range indexing; the two slice reads are renamed
+# textually (each must occur exactly once) to opaque calls before translation. Everything that
+# decides — the comparisons, their order, the early returns, the number of bytes consumed — is
+# translated from the text as it is now.
+import os
+import tempfile
+sys.path.insert(0, os.path.join(os.path.dirname(os.path.abspath(__file__)), ".."))
+import rs2lean  # noqa: E402
+
+subs = [
+    ('src[..4].try_into().expect("checked available bytes")', "first4(src)"),
+    ("&src[4..4 + frame_len]", "payload(src, frame_len)"),
+]
+text = src
+for a, b in subs:
+    if text.count(a) != 1:
+        sys.stderr.write(f"C26 extract: slice read {a!r} not found exactly once in codec.rs\n")
+        sys.exit(1)
+    text = text.replace(a, b)
+tmp = tempfile.mkdtemp(prefix="c26x")
+os.makedirs(os.path.join(tmp, "p2panda-net", "src"))
+open(os.path.join(tmp, "p2panda-net", "src", "codec.rs"), "w").write(text)
+spec = {
+    "lean_name": "decodeT", "file": "p2panda-net/src/codec.rs", "fn": "decode", "impl": "Decoder for Codec<M>",
+    "params": "{M E : Type} (tooLarge postcard : E) (fromBe32 : List Nat → Nat) (max : Nat) (de : List Nat → Option M) (buf : List Nat)",
+    "ret": "Except E (Option M) × List Nat",
+    "places": {"src": "buf"},
+    "atoms": {
+        "src.len()": "buf.length",
+        "self.max_frame_len": "max",
+        "first4(src)": "(buf.take 4)",
+        "u32::from_be_bytes(bytes)asusize": "(fromBe32 {bytes})",
+        "Ok(None)": "(Except.ok none)",
+        "Err(CodecError::TooLargeMessage(frame_len,self.max_frame_len))": "(Except.error tooLarge)",
+        "postcard::from_bytes(payload(src,frame_len))?": "(de ((buf.drop 4).take {frame_len}))",
+        "Ok(Some(item))": "(match {item} with | none => Except.error postcard | some m => Except.ok (some m))",
+    },
+    "effects": {"src.advance((4+frame_len))": {"src": "({src}.drop (4 + {frame_len}))"}},
+    "outputs": ["return", "src"],
+}
+try:
+    print(rs2lean.translate(spec, tmp))
+except (rs2lean.TranslateError, OSError, KeyError, IndexError) as e:
+    sys.stderr.write(f"C26 extract: translation of Codec::decode failed: {e}\n")
+    sys.exit(1)
+finally:
+    import shutil
+    shutil.rmtree(tmp, ignore_errors=True)
